@@ -14,6 +14,7 @@ CLANG = shutil.which("clang")
 AR = shutil.which("ar")
 
 _cache_lock = threading.Lock()
+_key_locks = {}
 
 
 def wild(variant="hook"):
@@ -40,6 +41,17 @@ def compile_c(ctx, src, flags=(), lang="c", compiler=None, name=None):
     key = sha(compiler + "\0" + " ".join(flags) + "\0" + src)[:24]
     d = ctx.scratch.dir("objcache")
     obj = os.path.join(d, (name + "-" if name else "") + key + ".o")
+    if os.path.exists(obj):
+        return obj
+    # One compile per key: a second thread replacing the object while a link of the first thread
+    # reads it would look to wild like an input that changed during the link.
+    with _cache_lock:
+        klock = _key_locks.setdefault(obj, threading.Lock())
+    with klock:
+        return _compile_locked(compiler, flags, src, ext, d, key, obj)
+
+
+def _compile_locked(compiler, flags, src, ext, d, key, obj):
     if os.path.exists(obj):
         return obj
     srcp = os.path.join(d, key + ext)
